@@ -443,6 +443,23 @@ static void out_append(const uint8_t* p, size_t n) {
   g_out_len += n;
 }
 
+// On "$short workbuf" the client re-queries workbuf_len and supplies at least
+// the minimum, keeping the old contents. Returns 0 ok, 1 cannot grow, 2 too big.
+static int grow_workbuf(wuffs_base__io_transformer* t, uint8_t** wmem, uint64_t* wlen, wuffs_base__slice_u8* wb) {
+  wuffs_base__range_ii_u64 wr = wuffs_base__io_transformer__workbuf_len(t);
+  if (wr.min_incl <= *wlen) return 1;
+  if (wr.min_incl > (512ull << 20)) return 2;
+  uint8_t* n = (uint8_t*)malloc(wr.min_incl);
+  if (!n) return 2;
+  memset(n, 0, wr.min_incl);
+  memcpy(n, *wmem, *wlen);
+  free(*wmem);
+  *wmem = n;
+  *wlen = wr.min_incl;
+  *wb = wuffs_base__make_slice_u8(n, wr.min_incl);
+  return 0;
+}
+
 static void run_iot(obj_t* o, const uint8_t* in, size_t in_len, const kv_t* kv, iot_res_t* r) {
   wuffs_base__io_transformer* t = (wuffs_base__io_transformer*)o->up;
   plan_t sp, dp;
@@ -462,8 +479,13 @@ static void run_iot(obj_t* o, const uint8_t* in, size_t in_len, const kv_t* kv, 
   wuffs_base__range_ii_u64 wr = wuffs_base__io_transformer__workbuf_len(t);
   uint64_t wlen = wbmax ? wr.max_incl : wr.min_incl;
   if (wlen > (64u << 20)) wlen = wr.min_incl;
-  uint8_t* wmem = (uint8_t*)malloc(wlen ? wlen : 1);
-  fill(wmem, wlen, dfill);
+  // wbfixed: a client that always passes one generous work buffer (as the
+  // repository's own tests and examples do); needed where the requirement is
+  // only known after the header was parsed (lzma, xz, lzip).
+  bool wbfixed = kv_get(kv, "wbfixed", NULL) != NULL;
+  if (wbfixed) wlen = kv_u64(kv, "wbfixed", 0);
+  uint8_t* wmem = (uint8_t*)(wbfixed ? calloc(wlen ? wlen : 1, 1) : malloc(wlen ? wlen : 1));
+  if (!wbfixed) fill(wmem, wlen, dfill);
   wuffs_base__slice_u8 wb = wuffs_base__make_slice_u8(wmem, wlen);
 
   if (!compact_mode) {
@@ -542,6 +564,13 @@ static void run_iot(obj_t* o, const uint8_t* in, size_t in_len, const kv_t* kv, 
           break;
         }
         continue;
+      }
+      if (st.repr == wuffs_base__suspension__short_workbuf) {
+        int g = grow_workbuf(t, &wmem, &wlen, &wb);
+        if (g == 0) continue;
+        r->final_status = st.repr;
+        r->outcome = g == 2 ? "workbuf_too_big" : "stalled";
+        break;
       }
       if (wuffs_base__status__is_suspension(&st)) {
         // another suspension: not expected from an io_transformer
@@ -634,6 +663,14 @@ static void run_iot(obj_t* o, const uint8_t* in, size_t in_len, const kv_t* kv, 
             r->outcome = "stalled";
             done = true;
           }
+          break;
+        }
+        if (st.repr == wuffs_base__suspension__short_workbuf) {
+          int g = grow_workbuf(t, &wmem, &wlen, &wb);
+          if (g == 0) continue;
+          r->final_status = st.repr;
+          r->outcome = g == 2 ? "workbuf_too_big" : "stalled";
+          done = true;
           break;
         }
         if (st.repr == wuffs_base__suspension__short_write) {
